@@ -32,8 +32,17 @@ def make(cfg):
     plugins = list(cfg.get("plugins") or [])
     if cfg.get("directives"):
         plugins.append(directive_plugin(cfg["directives"]))
+    if cfg.get("max_nested") and cfg.get("max_nested_how") == "ctor":
+        # the nesting limit given to the BlockParser constructor (no plugins on this path)
+        from mistune.block_parser import BlockParser
+        from mistune.inline_parser import InlineParser
+        from mistune.renderers.html import HTMLRenderer
+        rr = HTMLRenderer(escape=cfg.get("escape", True)) if renderer == "html" else (None if renderer in ("ast", None) else renderer)
+        return mistune.Markdown(renderer=rr, block=BlockParser(max_nested_level=cfg["max_nested"]), inline=InlineParser(hard_wrap=cfg.get("hard_wrap", False)))
     md = mistune.create_markdown(escape=cfg.get("escape", True), hard_wrap=cfg.get("hard_wrap", False),
                                  renderer=renderer, plugins=plugins or None)
+    if cfg.get("max_nested"):
+        md.block.max_nested_level = cfg["max_nested"]      # the documented attribute, set on the converter's parser
     if cfg.get("toc_hook"):
         from mistune.toc import add_toc_hook
         add_toc_hook(md)
